@@ -142,6 +142,10 @@ def unit_handler(handler, notified):
             args = []
         elif handler == 'processEnded':
             args = [VOpaque('status', 7502)]
+        elif handler in ('outReceived', 'errReceived'):
+            data = z3.String('process_output')
+            ctx.input('process_output', VBytes(data))
+            args = [VBytes(data)]
         elif handler == '_status_client':
             args = [VStr(z3.String('event_text'))]
             # A9: PROGRESS is a plain decimal number
@@ -149,6 +153,14 @@ def unit_handler(handler, notified):
         outs = ex.getattr_v(path, tpp, handler)
         outs = ex.call(outs[0][0], outs[0][1], args, {})
         for p, r in outs:
+            if isinstance(r, Raise) and handler == 'errReceived':
+                # stderr output kills the launch attempt: the connection to the process is dropped; the outcome itself
+                # comes from processEnded, never from here
+                lose = ctx.models.glog(p, 'lose')
+                ctx.oblige('post.stderr_output_drops_the_process_connection', p, B(len(lose) == 1 and isinstance(r.exc, VInst) and r.exc.cls is RuntimeError))
+                for name, g in outcome_posts(ctx, p, tpp, pre, notified, 'none'):
+                    ctx.oblige('post.' + name, p, g, clause='it fails if the process exits first (not merely because it wrote to stderr)')
+                continue
             if isinstance(r, Raise):
                 cname = r.exc.cls.__name__ if isinstance(r.exc, VInst) else '?'
                 if handler == '_status_client':
@@ -188,6 +200,23 @@ def unit_handler(handler, notified):
                                    deleted[0].t == z3.String('tmpdir0') if len(deleted) == 1 and isinstance(deleted[0], VStr) else B(False),
                                    B(len(ex.list_items(p, td)) == 0 if hasattr(td, 'lid') else False))))
                 posts.extend(outcome_posts(ctx, p, tpp, pre, notified, 'err', lambda res: is_failure(p, res)))
+            elif handler == 'outReceived':
+                connects = ctx.models.glog(p, 'connects')
+                chained = ctx.models.glog(p, 'chained')
+                marker = z3.Contains(z3.String('process_output'), mk_str('Opening Control listener'))
+                attempted0 = z3.Bool('attempted0')
+                start = z3.And(z3.Not(attempted0), marker)
+                okc = len(connects) == 1 and len(chained) == 2 and chained[0][1] == 'addCallback' and chained[1][1] == 'addErrback' \
+                    and isinstance(chained[0][2][0], VFunc) and chained[0][2][0].qualname.endswith('_tor_connected') \
+                    and isinstance(chained[1][2][0], VFunc) and chained[1][2][0].qualname.endswith('_tor_connection_failed')
+                posts.append(('control_connection_attempted_once_when_the_listener_is_announced', z3.If(start, B(okc), B(len(connects) == 0 and len(chained) == 0))))
+                att = p.heap[('f', tpp.oid, 'attempted_connect')]
+                posts.append(('attempt_remembered', att.t == z3.Or(attempted0, marker) if isinstance(att, VBool) else B(False)))
+                # process output never produces an outcome: success needs the 100% event on the authenticated control connection
+                posts.extend(outcome_posts(ctx, p, tpp, pre, notified, 'none') if not notified else outcome_posts(ctx, p, tpp, pre, True, 'none'))
+                posts.append(('timeout_stays_armed', B(len(cancelled) == 0)))
+            elif handler == 'errReceived':
+                posts.append(('unreachable_with_kill_on_stderr', B(False)))
             elif handler == '_status_client':
                 kind = z3.String('event_kind')
                 ptxt = z3.String('progress_text')
@@ -262,7 +291,7 @@ def unit_tor_connected():
 
 def units():
     out = []
-    for h in ('when_connected', '_maybe_notify_connected', '_timeout_expired', 'processEnded', '_status_client'):
+    for h in ('when_connected', '_maybe_notify_connected', '_timeout_expired', 'processEnded', '_status_client', 'outReceived', 'errReceived'):
         for notified in (False, True):
             out.append(('C19/%s@%s' % (h, 'outcome_known' if notified else 'pending'), unit_handler(h, notified)))
     out.append(('C19/_tor_connected', unit_tor_connected()))
